@@ -1142,6 +1142,127 @@ theorem C02.case_resize (env : Env) (a : Expr) (w : Nat) (iha : Good env a) : Go
     · simp only [evalV, ea, hva]; exact hr
 
 
+/-! ### implicit conversion of a result that drives a target of another type -/
+
+/-- `target <<= x` (also: the arms of an if-expression / select_with typed by their target): Unsigned into a wider
+    Unsigned or a STRICTLY wider Signed is zero-extended (`resize` acts on the unsigned value, the reinterpretation
+    as signed comes afterwards), Signed into a wider Signed is sign-extended - the numeric value is preserved,
+    also when the most significant bit of the Unsigned operand is set -/
+theorem C02.conv_correct (wa w : Nat) (x : Int) :
+    (InRange (.uns wa) (.n x) → wa ≤ w →
+        vresizeV (inj (.uns wa) (.n x)) w = inj (.uns w) (.n x) ∧ InRange (.uns w) (.n x)) ∧
+    (InRange (.sgn wa) (.n x) → wa ≤ w →
+        vresizeV (inj (.sgn wa) (.n x)) w = inj (.sgn w) (.n x) ∧ InRange (.sgn w) (.n x)) ∧
+    (InRange (.uns wa) (.n x) → wa < w →
+        vconv .sgn (vconv .slv (vresizeV (inj (.uns wa) (.n x)) w)) = inj (.sgn w) (.n x) ∧ InRange (.sgn w) (.n x)) := by
+  refine ⟨?_, ?_, ?_⟩
+  · intro hr hw
+    obtain ⟨h1, h0, hlt⟩ := hr
+    exact ⟨(C02.resize_preserves_value wa w x hw).1 ⟨h1, h0, hlt⟩, le_trans h1 hw, h0, lt_of_lt_of_le hlt (p2mono hw)⟩
+  · intro hr hw
+    obtain ⟨h1, h0, hlt⟩ := hr
+    have hm : (2 : Int) ^ (wa - 1) ≤ 2 ^ (w - 1) := p2mono (by omega)
+    exact ⟨(C02.resize_preserves_value wa w x hw).2 ⟨h1, h0, hlt⟩, le_trans h1 hw, by linarith, lt_of_lt_of_le hlt hm⟩
+  · intro hr hw
+    obtain ⟨h1, h0, hlt⟩ := hr
+    have hm : (2 : Int) ^ wa ≤ 2 ^ (w - 1) := p2mono (by omega)
+    have hlt' : x < 2 ^ w := lt_of_lt_of_le hlt (p2mono (by omega))
+    have e1 := enc_of_range h0 hlt
+    have e2 := enc_of_range h0 hlt'
+    have ee : enc wa x = enc w x := by exact_mod_cast e1.trans e2.symm
+    have r := vresize_uns (le_of_lt hw) (enc_lt wa x)
+    refine ⟨?_, by omega, by linarith [p2pos (w - 1)], lt_of_lt_of_le hlt hm⟩
+    simp only [inj, vresizeV, r, vconv]
+    rw [ee]
+
+example : InRange (.uns 3) (.n 5) ∧ 3 < 5 := by simp [InRange]
+
+theorem C02.case_conv (env : Env) (a : Expr) (tt : Ty) (iha : Good env a) : Good env (.conv a tt) := by
+  intro t ht hd
+  simp only [typeOf] at ht
+  cases hta : typeOf a with
+  | error er => simp [hta] at ht
+  | ok ta =>
+  simp only [hta] at ht
+  simp only [defined] at hd
+  obtain ⟨ra, ea⟩ := iha ta hta hd
+  cases ta <;> cases tt <;> simp only [convTy, ite_ok_iff, Except.ok.injEq] at ht
+  all_goals try (simp at ht; done)
+  · -- bit -> bit
+    subst ht
+    simp only [lower, hta, tyOr, evalSpec]
+    exact ⟨ra, ea⟩
+  · -- bv -> bv
+    obtain ⟨rfl, rfl⟩ := ht
+    obtain ⟨x, hx, _, h0, h1⟩ := inR_bv ra
+    simp only [lower, hta, tyOr, evalSpec, hx, Val.num, pat, wrapU_id h0 h1]
+    rw [hx] at ra ea; exact ⟨ra, ea⟩
+  · -- bv -> uns
+    obtain ⟨rfl, rfl⟩ := ht
+    obtain ⟨x, p, hx, iv, pl, pc, hw, _⟩ := vecView rfl ra
+    have ra' := ra
+    rw [hx] at ra'
+    obtain ⟨_, h0, h1⟩ := ra'
+    have hp : (p : Int) = x := by rw [pc]; exact wrapU_id h0 h1
+    have key := (C02.view_correct .slv _ p hw pl).2.1
+    simp only [lower, hta, tyOr, evalSpec, evalV, ea, iv, vkOf, Ty.width] at key ⊢
+    simp only [hx, Val.num] at *
+    rw [← hp]; exact ⟨key.2, key.1⟩
+  · -- bv -> sgn
+    obtain ⟨rfl, rfl⟩ := ht
+    obtain ⟨x, p, hx, iv, pl, pc, hw, _⟩ := vecView rfl ra
+    have ra' := ra
+    rw [hx] at ra'
+    obtain ⟨_, h0, h1⟩ := ra'
+    have hp : (p : Int) = x := by rw [pc]; exact wrapU_id h0 h1
+    have key := (C02.view_correct .slv _ p hw pl).1
+    simp only [lower, hta, tyOr, evalSpec, evalV, ea, iv, vkOf, Ty.width] at key ⊢
+    simp only [hx, Val.num] at *
+    rw [← hp]; exact ⟨key.2, key.1⟩
+  · -- uns -> bv
+    obtain ⟨rfl, rfl⟩ := ht
+    obtain ⟨x, p, hx, iv, pl, pc, hw, _⟩ := vecView rfl ra
+    have ra' := ra
+    rw [hx] at ra'
+    obtain ⟨_, h0, h1⟩ := ra'
+    have hp : (p : Int) = x := by rw [pc]; exact wrapU_id h0 h1
+    have key := (C02.view_correct .uns _ p hw pl).2.2
+    simp only [lower, hta, tyOr, evalSpec, evalV, ea, iv, vkOf, Ty.width] at key ⊢
+    simp only [hx, Val.num] at *
+    rw [← hp]; exact ⟨key.2, key.1⟩
+  · -- uns -> uns
+    obtain ⟨hw, rfl⟩ := ht
+    obtain ⟨x, hx, _⟩ := inR_uns ra
+    rw [hx] at ra ea
+    have key := (C02.conv_correct _ _ x).1 ra hw
+    simp only [lower, hta, tyOr, evalSpec, hx, Val.num]
+    split
+    · rename_i heq; subst heq; exact ⟨ra, ea⟩
+    · simp only [evalV, ea]; exact ⟨key.2, key.1⟩
+  · -- uns -> sgn
+    obtain ⟨hw, rfl⟩ := ht
+    obtain ⟨x, hx, _⟩ := inR_uns ra
+    rw [hx] at ra ea
+    have key := (C02.conv_correct _ _ x).2.2 ra hw
+    simp only [lower, hta, tyOr, evalSpec, hx, Val.num, evalV, ea]
+    exact ⟨key.2, key.1⟩
+  · -- sgn -> bv
+    obtain ⟨rfl, rfl⟩ := ht
+    obtain ⟨x, p, hx, iv, pl, pc, hw, _⟩ := vecView rfl ra
+    have key := (C02.view_correct .sgn _ p hw pl).2.2
+    simp only [lower, hta, tyOr, evalSpec, evalV, ea, iv, vkOf, Ty.width] at key ⊢
+    simp only [hx, Val.num] at *
+    rw [← pc]; exact ⟨key.2, key.1⟩
+  · -- sgn -> sgn
+    obtain ⟨hw, rfl⟩ := ht
+    obtain ⟨x, hx, _⟩ := inR_sgn ra
+    rw [hx] at ra ea
+    have key := (C02.conv_correct _ _ x).2.1 ra hw
+    simp only [lower, hta, tyOr, evalSpec, hx, Val.num]
+    split
+    · rename_i heq; subst heq; exact ⟨ra, ea⟩
+    · simp only [evalV, ea]; exact ⟨key.2, key.1⟩
+
 /-! ### the induction over `Expr` -/
 
 
@@ -1172,12 +1293,13 @@ theorem C02.case_all (env : Env) (e : Expr) : Good env e := by
   | lor a b iha ihb => exact C02.case_lor env a b iha ihb
   | ite c a b ihc iha ihb => exact C02.case_ite env c a b ihc iha ihb
   | sel arg key e rest iharg ihe ihr => exact C02.case_sel env arg key e rest iharg ihe ihr
+  | conv a t iha => exact C02.case_conv env a t iha
 
 
-/-- C02 on the model, FULL strength: for every expression tree (all 26 constructors: ports, typed constants,
+/-- C02 on the model, FULL strength: for every expression tree (all 27 constructors: ports, typed constants,
     Python ints on either side, + - * truncdiv % rem, & | ^ ~, neg, abs, all six comparisons, << >>, @, constant
     index / slice, run-time index, .signed / .unsigned / .bitvector, resize, bool() / not / and / or (hence chained
-    comparisons and any / all), if-expression, select_with), every width and every operand valuation of the
+    comparisons and any / all), if-expression, select_with, implicit conversion of a result driving a target of another type), every width and every operand valuation of the
     documented domain (`defined`: no division by zero), the VHDL expression the back end prints evaluates under
     numeric_std / std_logic_1164 to the documented value with the documented type and width, and that value lies
     in the range of the type. -/
